@@ -3,6 +3,7 @@ package main
 import (
 	"fmt"
 	"go/ast"
+	"go/constant"
 	"go/types"
 	"sort"
 	"strings"
@@ -722,5 +723,52 @@ func ruleClosePathBounded(c *Ctx) {
 		}
 		visit(root, 0)
 		c.R.Hold("R-BOUND/closepath", p.Pos(root.Node()), root.Name, "channel waits of the close path", fmt.Sprintf("%d channel waits examined so far, all with a timer or default arm", n), true)
+	}
+}
+
+// ---------- R-BOUND/ready: no RPC of the library waits for the connection to come up ----------
+
+// ruleNoWaitForReady: gRPC calls fail fast by default - a call on a connection
+// that cannot be established returns Unavailable. grpc.WaitForReady(true) (and
+// its old spelling FailFast(false)) turns that into a wait that ends only with
+// the call's context; the library's own calls run on the plugin's exit context
+// or on none, under the client lock, so for a plugin that never becomes
+// reachable Client() would never return. No function of the module builds that
+// call option.
+func ruleNoWaitForReady(c *Ctx) {
+	p := c.P
+	bad := false
+	for _, f := range p.Funcs {
+		if !notTesting(p, f) {
+			continue
+		}
+		info := f.Pkg.TypesInfo
+		for _, call := range f.Calls() {
+			nm := p.CalleeName(f, call)
+			waits := false
+			switch nm {
+			case "google.golang.org/grpc.WaitForReady":
+				waits = true
+				if len(call.Args) == 1 {
+					if tv, ok := info.Types[call.Args[0]]; ok && tv.Value != nil && tv.Value.Kind() == constant.Bool && !constant.BoolVal(tv.Value) {
+						waits = false
+					}
+				}
+			case "google.golang.org/grpc.FailFast":
+				waits = true
+				if len(call.Args) == 1 {
+					if tv, ok := info.Types[call.Args[0]]; ok && tv.Value != nil && tv.Value.Kind() == constant.Bool && constant.BoolVal(tv.Value) {
+						waits = false
+					}
+				}
+			}
+			if waits {
+				bad = true
+				c.R.Violate("R-BOUND/ready", p.Pos(call), f.Name, "call option "+shortName(nm), "the library makes a gRPC call that waits for the connection to become ready instead of failing fast: against a plugin that never becomes reachable the call (and with it Client(), which holds the client lock) returns only when its context ends - the plugin's exit context, or never", nil)
+			}
+		}
+	}
+	if !bad {
+		c.R.Hold("R-BOUND/ready", "-", "", "library RPCs fail fast", "no grpc.WaitForReady(true) / FailFast(false) call option is built anywhere in the module", false)
 	}
 }
